@@ -310,6 +310,28 @@ def run_shard(u, shard, nshards, tier, seed, outdir):
         if timed_out:
             errors.append("timeout after %ds: %s shard %d" % (u.timeout, u.name, shard))
             break
+        if crash and crash[0].get("sig") == 14 and int(crash[0].get("n", 0)) > 0:
+            # the wall-clock watchdog fired: on a loaded machine that alone is not a verdict. Re-run the single case once
+            # with a generous limit; only a case that hangs again is reported.
+            n = int(crash[0]["n"])
+            out2 = out + ".rerun"
+            cmd2 = [u.binary, "--tier", tier, "--seed", str(seed), "--shard", str(shard), "--nshards", str(nshards), "--out", out2, "--only", str(n)] + u.args
+            again = True
+            try:
+                p2 = subprocess.run(cmd2, stdout=subprocess.PIPE, stderr=subprocess.PIPE, env=env, timeout=300)
+                txt = open(out2).read() if os.path.exists(out2) else ""
+                again = ('"t":"crash"' in txt) or p2.returncode != 0
+            except subprocess.TimeoutExpired:
+                again = True
+            if os.path.exists(out2):
+                os.remove(out2)
+            if not again:
+                recs.append({"t": "cov", "evaluations": 0, "nontrivial": 0, "cells": {"watchdog-fired-but-case-finished-on-rerun": 1}, "violcount": {}, "samples": []})
+                resume = n
+                if attempts >= 10:
+                    errors.append("too many watchdog alarms in %s shard %d" % (u.name, shard))
+                    break
+                continue
         if crash:
             c = crash[0]
             c["stderr"] = stderr[-4000:]
